@@ -133,7 +133,7 @@ LiveRecvKeys(x) == {<<y, z>> : z \in ({x.cur, x.prev} \ {0}), y \in ({x.tcur, x.
 NextObs(e) ==
   [obs EXCEPT
      !.delivered[e.p] = IF e.ev = "Recv" /\ e.plain > 0 /\ e.atk = ""
-                        THEN Append(@, <<e.plain, HasEv(e, "msg:ReceivedMessageUnencrypted"), e.prs>>) ELSE @,
+                        THEN Append(@, <<e.plain, HasEv(e, "msg:ReceivedMessageUnencrypted"), e.prs, e.m.t = "D">>) ELSE @,
      !.accepted[e.p] = IF e.ev = "Send" /\ st[e.p].ms = "enc" /\ ~e.err THEN Append(@, e.text) ELSE @,
      !.lastsec[e.p] = IF SecOf(e) # <<>> THEN SecOf(e)[Len(SecOf(e))] ELSE @,
      !.wire = @ \cup {<<e.out[i].text, e.out[i].rs, e.out[i].id>> : i \in {j \in DataOuts(e) : e.out[j].text > 0}},
@@ -162,8 +162,8 @@ PropViolations(e, o) ==
   \cup (IF fifoData /\ e.ev = "Done" /\ e.qa = 0 /\ e.qb = 0
            /\ \E r \in Parties : TextsOf(o.delivered[r]) # o.accepted[Other(r)]
         THEN {<<"C04", "text lost at quiescence">>} ELSE {})
-  \cup (IF e.ev = "Recv" /\ e.plain > 0 /\ ~HasEv(e, "msg:ReceivedMessageUnencrypted") /\ ~e.prs
-           /\ \E i \in DOMAIN obs.delivered[p] : obs.delivered[p][i][1] = e.plain /\ ~obs.delivered[p][i][2] /\ ~obs.delivered[p][i][3]
+  \cup (IF e.ev = "Recv" /\ e.plain > 0 /\ e.m.t = "D" /\ ~e.prs
+           /\ \E i \in DOMAIN obs.delivered[p] : obs.delivered[p][i][1] = e.plain /\ obs.delivered[p][i][4] /\ ~obs.delivered[p][i][3]
         THEN {<<"C05", "text delivered twice">>} ELSE {})
   \cup (IF e.ev # "Done" /\ e.st.ms = "enc" /\ \E i \in DataOuts(e) : TupSet(e.out[i].discl) \cap LiveRecvKeys(e.st) # {}
         THEN {<<"C09", "disclosed MAC key of a key pair that is still accepted">>} ELSE {})
@@ -244,6 +244,16 @@ PropViolations(e, o) ==
         THEN {<<IF e.atk # "" \/ e.m.smp.ok # "ok" THEN "C12" ELSE "C11", "SMP reported success although the secrets bound by the two parties differ or the message was deviant">>} ELSE {})
   \cup (IF e.ev = "Done" /\ o.fam = "smpdev" /\ ~(o.smpok["A"] /\ o.smpok["B"])
         THEN {<<"C12", "after a deviant SMP message an honest run with equal secrets did not succeed on both sides">>} ELSE {})
+  \cup (IF e.ev # "Done" /\ \E i \in DOMAIN e.st.held : e.st.held[i] \notin {e.st.cur, e.st.prev, e.st.ax}
+        THEN {<<"C08", "a retired DH exponent is still reachable from the conversation">>} ELSE {})
+  \cup (IF e.ev # "Done" /\ e.st.dirty # <<>>
+        THEN {<<"C08", "a retired DH exponent was dropped without being erased">>} ELSE {})
+  \cup (IF e.ev # "Done" /\ \E i \in DOMAIN e.st.kept : \A j \in DOMAIN e.st.rsq : e.st.rsq[j] # e.st.kept[i]
+        THEN {<<"C08", "a text is retained although it is neither queued nor the last message">>} ELSE {})
+  \cup (IF e.ev # "Done" /\ e.st.ms # "enc" /\ e.st.auth \in {"nil", "none"} /\ e.st.held # <<>>
+        THEN {<<"C08", "DH exponents are retained although no session or key exchange exists">>} ELSE {})
+  \cup (IF e.ev # "Done" /\ e.st.ms = "fin" /\ e.st.rsq # <<>>
+        THEN {<<"C08", "text retained after the peer ended the session">>} ELSE {})
   \cup (IF e.ev = "Done" /\ o.fam = "ake" /\ e.qa = 0 /\ e.qb = 0 /\ o.started /\
              ~(/\ st["A"].ms = "enc" /\ st["B"].ms = "enc" /\ st["A"].sess = st["B"].sess
                /\ st["A"].peer = "B" /\ st["B"].peer = "A" /\ st["A"].rev # st["B"].rev)
